@@ -35,12 +35,15 @@ def plans(tier, seed):
     # lists
     worlds = []
     for i, c in enumerate(cells):
-        for th, cb in ((0, 0), (1, 1), (2, 0)) if not quick else ((i % 3, i % 2),):
+        for th, cb in ((0, 0), (1, 1), (2, 0), (3, 0)) if not quick else ((i % 4, i % 2),):       # Threading: single, std::mutex, SpinLock, tracked
             w = props_cl.world("cl_t%d_c%d_%s" % (th, cb, cname(c)), th, cb, fill=fills[(i + th) % 4], compiler=c[0], std=c[1], opt=c[2], fraction=1.0)
             w["equiv_group"] = "lists"; w["sample_seed"] = seed
             worlds.append(w)
     out.append({"interp": "harness/cl_interp.cpp", "trace_module": "TraceCL",
-                "models": [{"module": "CLImpl", "tag": "lists", "invariants": props_cl.INV, "constants": props_cl.consts(3 if quick else 4, 2, ops=props_cl.ALL1 - {"j", "g"})}],
+                "models": [{"module": "CLImpl", "tag": "lists", "invariants": props_cl.INV, "constants": props_cl.consts(3 if quick else 4, 2, ops=props_cl.ALL1 - {"j", "g"})},
+                           # the same with the generation counter wrapping at every position: what getNextCounter does under its own lock must not depend on the mutex type
+                           {"module": "CLImpl", "tag": "lists-wrap", "invariants": props_cl.INV,
+                            "constants": props_cl.consts(3, 2, maxgen=2, dist=[0, 1, 2], ops={"a", "p", "i", "r", "v", "o"}, nest={"a", "i", "r"} if quick else {"a", "p", "i", "r", "v"})}],
                 "worlds": worlds, "nontrivial_key": "nested",
                 "rule": "C02's re-entrant list cover replayed in every selected cell; traces byte-identical across cells", "assumptions": ASSUME})
     # dispatcher: groups by (mode, arg)
